@@ -8,12 +8,13 @@ import YaegiVerif.Model.Build
 namespace YaegiVerif.Build.Spec
 open YaegiVerif YaegiVerif.Build
 
+/-- go/build syslist.go knownOS / knownArch (go1.23), sorted -/
 def knownOS : List String :=
   ["aix","android","darwin","dragonfly","freebsd","hurd","illumos","ios","js","linux","nacl",
    "netbsd","openbsd","plan9","solaris","wasip1","windows","zos"]
 def knownArch : List String :=
-  ["386","amd64","amd64p32","arm","armbe","arm64","arm64be","loong64","mips","mipsle","mips64",
-   "mips64le","mips64p32","mips64p32le","ppc","ppc64","ppc64le","riscv","riscv64","s390","s390x",
+  ["386","amd64","amd64p32","arm","arm64","arm64be","armbe","loong64","mips","mips64",
+   "mips64le","mips64p32","mips64p32le","mipsle","ppc","ppc64","ppc64le","riscv","riscv64","s390","s390x",
    "sparc","sparc64","wasm"]
 def unixOS : List String :=
   ["aix","android","darwin","dragonfly","freebsd","hurd","illumos","ios","linux","netbsd","openbsd","solaris"]
@@ -45,7 +46,7 @@ def linesOk (c : Ctx) (lns : List PlusLine) : Bool := lns.all (lineOk c)
 
 /-! ### file names -/
 
-/-- goodOSArchFile on the elements of the base name (no dot inside the base). `true` = good -/
+/-- goodOSArchFile on the elements of the name cut at its first dot. `true` = good -/
 def goodOSArch (c : Ctx) (elems : List String) : Bool :=
   match elems.tail with
   | [] => true
@@ -60,9 +61,10 @@ def goodOSArch (c : Ctx) (elems : List String) : Bool :=
       else if knownOS.contains y || knownArch.contains y then matchWord c y
       else true
 
-/-- is the file part of the package when loaded (`skipTest`: importing, test files excluded) -/
-def selectedElems (c : Ctx) (elems : List String) (skipTest : Bool) : Bool :=
-  !(skipTest && isTestName elems) && goodOSArch c elems
+/-- is the file part of the package when loaded (`skipTest`: importing, test files excluded);
+    `isTest` = the base name ends in `_test` -/
+def selectedElems (c : Ctx) (isTest : Bool) (elems : List String) (skipTest : Bool) : Bool :=
+  !(skipTest && isTest) && goodOSArch c elems
 
 /-! ### raw layer: what MatchFile does with the name and header text -/
 
@@ -75,8 +77,7 @@ def nameOkRaw (c : Ctx) (name : List Char) (skipTest : Bool) : Bool :=
     let stem := (Str.splitOn '.' name).headD []
     let elems := (Str.splitOn '_' stem).map Str.s
     let base := name.take (name.length - 3)
-    let isTest := Str.hasSuffix "_test".toList base
-    !(skipTest && isTest) && goodOSArch c elems
+    selectedElems c (Str.hasSuffix "_test".toList base) elems skipTest
 
 def isValidTagChar (ch : Char) : Bool :=
   ch.isAlphanum || ch == '_' || ch == '.' || ch.toNat > 127   -- unicode letters/digits are accepted too
